@@ -316,6 +316,9 @@ fn trace(args: &[String]) {
             "work": pad(work.iter().map(|x| json!(x)).collect(), json!(1)),
             "ok": pad(ok.iter().map(|x| json!(x)).collect(), json!("ok"))})).unwrap();
         events += 1;
+        // The mirror's ChainService thread emits its Broker/Release events *after* handing the block on, so it may
+        // still be busy with the last block built: a request through the same (single) thread waits for it.
+        let _ = m.process(&genesis);
         verif::capture(true);
         let uneven = blocks.iter().any(|b| switch_for(b, epoch_ct).is_some());
         let mut t = Tally::default();
@@ -355,7 +358,9 @@ fn trace(args: &[String]) {
             if e["ev"] == "Release" && e["l"] == json!(-1) {
                 continue;           // leader of an orphan left over from an earlier scenario on this node (inert)
             }
-            e.as_object_mut().unwrap().remove("th");
+            if std::env::var("C01_RAW").is_err() {
+                e.as_object_mut().unwrap().remove("th");
+            }
             e.as_object_mut().unwrap().remove("td");
             writeln!(outf, "{}", e).unwrap();
             events += 1;
